@@ -229,7 +229,7 @@ class C19(Prop):
             '"value": texts; name-based send/receive firewalls; packet streams cut into reads of generated sizes (<=4096); forged '
             'hostile packets (mutated call/value packets, junk, oversized) and hostile metadata added to genuine packets in '
             'transit; non-trivial = a read boundary fell strictly inside a packet, or >=2 events of one wave were in flight, or a '
-            'hostile packet parsed as JSON; distinct = distinct spec hash')
+            'hostile packet (forged, or a genuine one with hostile metadata added) parsed as JSON; distinct = distinct spec hash')
     assumptions = ('transport replaced by recording components (circuits.node.client.TCPClient / circuits.node.server.TCPServer '
                    'module globals); all simulated processes live in one interpreter',
                    'a hostile peer may answer its own connection arbitrarily: forged value packets use ids that are never allocated',
